@@ -42,7 +42,7 @@ func NewDBinBlockWriter(writer io.Writer) (*DBinBlockWriter, error) {
 
 func (w *DBinBlockWriter) Write(block *pbbstream.Block) error {
 	if !w.hasWrittenHeader {
-		err := w.src.WriteHeader(block.Payload.TypeUrl)
+		err := w.src.WriteHeader(block.GetPayload().GetTypeUrl())
 		if err != nil {
 			return fmt.Errorf("unable to write file header: %s", err)
 		}
